@@ -262,7 +262,15 @@ type Global struct {
 	Why     string
 }
 
+// Ghost is a specification-only global variable (e.g. the edge relation of the dependency graph being built).
+type Ghost struct {
+	Name string
+	Type TypeExpr
+	Pos  Position
+}
+
 type File struct {
+	Ghosts  []*Ghost
 	Globals []*Global
 	Pkg     string
 	Path    string
